@@ -125,6 +125,9 @@ func (db *DB) openMemTable(fid, flags int) (*memTable, error) {
 		if err := mt.wal.Delete(); err != nil {
 			db.opt.Errorf("while deleting file: %s, err: %v", filepath, err)
 		}
+		if y.VerifEnabled {
+			y.VerifEvent("fs.remove", filepath)
+		}
 	}
 
 	if lerr == z.NewFile {
@@ -153,6 +156,11 @@ func (db *DB) mtFilePath(fid int) string {
 }
 
 func (mt *memTable) SyncWAL() error {
+	if y.VerifEnabled {
+		err := mt.wal.Sync()
+		y.VerifEvent("fs.sync", mt.wal.path)
+		return err
+	}
 	return mt.wal.Sync()
 }
 
@@ -410,6 +418,9 @@ func (lf *logFile) doneWriting(offset uint32) error {
 		if err := lf.Sync(); err != nil {
 			return y.Wrapf(err, "Unable to sync value log: %q", lf.path)
 		}
+		if y.VerifEnabled {
+			y.VerifEvent("fs.sync", lf.path)
+		}
 	}
 
 	// Before we were acquiring a lock here on lf.lock, because we were invalidating the file
@@ -421,6 +432,9 @@ func (lf *logFile) doneWriting(offset uint32) error {
 
 	if err := lf.Truncate(int64(offset)); err != nil {
 		return y.Wrapf(err, "Unable to truncate file: %q", lf.path)
+	}
+	if y.VerifEnabled {
+		y.VerifEvent("fs.truncate", lf.path, int64(offset))
 	}
 
 	// Previously we used to close the file after it was written and reopen it in read-only mode.
@@ -544,6 +558,9 @@ func (lf *logFile) open(path string, flags int, fsize int64) error {
 			return err
 		}
 		lf.size.Store(vlogHeaderSize)
+		if y.VerifEnabled {
+			y.VerifEvent("fs.create", path)
+		}
 
 	} else if ferr != nil {
 		return y.Wrapf(ferr, "while opening file: %s", path)
